@@ -113,8 +113,12 @@ pub enum InOp {
     Write(VarId, WriteOp),
     ReadVar(VarId),
     ReadObs(usize),
+    /// drops the harness's handle of the variable from inside the closure (after any writes)
+    DropVar(VarId),
     /// handlers only
     UnsubscribeSelf,
+    /// drops every public handle of the handler's own observer
+    DropOwn,
     DisallowOwn,
     SubscribeOwn,
     ReadOwn,
@@ -243,6 +247,10 @@ pub enum Kind {
     Writer(F1, NodeId, Vec<InOp>),
     /// map over a pair var's first component through enumerate(): f(x) but counts calls
     Enumerate(F1, NodeId),
+    /// map_with_old producing the pair (x, f(x)); `truthful` as for MapWithOld
+    MapWithOldPair(F1, NodeId, bool),
+    /// map whose closure owns a clone of a variable handle (and reads it with get)
+    MapHold(F1, NodeId, VarId),
 }
 
 impl Kind {
@@ -255,7 +263,9 @@ impl Kind {
             | Kind::MapWithOld(_, a, _)
             | Kind::MapCyclic(_, a)
             | Kind::Writer(_, a, _)
-            | Kind::Enumerate(_, a) => vec![*a],
+            | Kind::Enumerate(_, a)
+            | Kind::MapWithOldPair(_, a, _)
+            | Kind::MapHold(_, a, _) => vec![*a],
             Kind::Map2(_, a, b) | Kind::Zip(a, b) | Kind::DependOn(a, b) => vec![*a, *b],
             Kind::MapN(_, v, _) | Kind::Fold(_, _, v) => v.clone(),
             Kind::Bind(l, _) => vec![*l],
@@ -279,6 +289,8 @@ impl Kind {
             Kind::Adopted(..) => "adopted",
             Kind::Writer(..) => "writer",
             Kind::Enumerate(..) => "enumerate",
+            Kind::MapWithOldPair(..) => "map_with_old_pair",
+            Kind::MapHold(..) => "map_holding_var",
         }
     }
 }
